@@ -787,11 +787,11 @@ theorem matcher_safe (name : String) (m : MosnVerif.Model.CheckedGo.Bytes → Ch
     (b : MosnVerif.Model.CheckedGo.Bytes) : (m b).Safe (fun _ => True) := by
   unfold matcherOf at h
   split at h <;> simp only [Option.some.injEq, reduceCtorEq] at h <;> subst h
-  · exact bolt_safe b
-  · exact boltv2_safe b
-  · exact dubbo_safe b
-  · exact thrift_safe b
-  · exact tars_safe b
+  · exact Safe.bind (bolt_safe b) (fun _ _ => Safe.ok trivial)
+  · exact Safe.bind (boltv2_safe b) (fun _ _ => Safe.ok trivial)
+  · exact Safe.bind (dubbo_safe b) (fun _ _ => Safe.ok trivial)
+  · exact Safe.bind (thrift_safe b) (fun _ _ => Safe.ok trivial)
+  · exact Safe.bind (tars_safe b) (fun _ _ => Safe.ok trivial)
   · exact Safe.bind (http1_safe b) (fun _ _ => Safe.ok trivial)
   · exact Safe.bind (http2_safe b) (fun _ _ => Safe.ok trivial)
 
@@ -810,6 +810,11 @@ theorem matchers_total (name : String) (m : MosnVerif.Model.CheckedGo.Bytes → 
     (b : MosnVerif.Model.CheckedGo.Bytes) : ∃ r, m b = .ok r ∧ (r = .failed ∨ r = .again ∨ r = .success) := by
   obtain ⟨r, hr, _⟩ := matcher_safe name m h b
   exact ⟨r, hr, by cases r <;> simp⟩
+
+/-- `streamConnFactory.ProtocolMatch` hands the matcher's verdict on unchanged: success ↦ nil, again ↦ EAGAIN, failed ↦ FAILED -/
+theorem xfactory_result_faithful (r : MR) : errToMR (MosnVerif.Gen.C08Matchers.xfactory_result r) = r ∧
+    MosnVerif.Gen.C08Matchers.xfactory_noMatcher = Err.failed := by
+  cases r <;> decide
 
 -- non-vacuity: all seven names are matchers; boundary answers of the regenerated programs
 example : matcherNames.all (fun n => (matcherOf n).isSome) = true := by decide
